@@ -256,7 +256,9 @@ def build(tier="quick", seed=0):
         return th
 
     TEXT_CASES = [(None, "plain", [b"<c20/a n=42 s='plain'>\n"] * 2), (None, "q'\n", [("<c20/a n=42 s=" + repr("q'\n") + ">\n").encode()] * 2), ("{n}\\t{s}|{unknown}\\n--", "lit\\n{n}\\tend", [b"42\tlit\\n{n}\\tend|{unknown}\n--\n"] * 2),
-                  ("{s}", "\udcff\udc80", [b"\xff\x80\n"] * 2), ("{_version}:{n:>5}", "v", [b"1:   42\n"] * 2)]
+                  ("{s}", "\udcff\udc80", [b"\xff\x80\n"] * 2), ("{_version}:{n:>5}", "v", [b"1:   42\n"] * 2),
+                  # attribute and index access and a nested field in a format spec are part of the template language
+                  ("{s[0]}-{n.real}-{s[1]}", "plain", [b"p-42-l\n"] * 2), ("{s:*^{n}}|", "ab", [b"ab".center(42, b"*") + b"|\n"] * 2), ("{n.numerator}/{_version.real}", "v", [b"42/1\n"] * 2)]
     for spec_, sval, want in TEXT_CASES:
         name = f"C20.text[template {spec_!r}, s={sval!r}]"
         pack.add(Obligation(name, lambda tier, name=name, spec_=spec_, sval=sval, want=want: prove_paths(name, th_text_concrete(spec_, sval), lambda p: (p.value[0] == want and p.value[1] >= 2, f"text output {p.value[0]!r}, expected {want!r}")),
